@@ -136,6 +136,7 @@ func cmdVerify(args []string) int {
 		return 2
 	}
 	thorough := *tier == "thorough"
+	os.Setenv("VERIF_TIER", *tier) // bounded stand-ins pick their bound from it
 	timeout := 10
 	if thorough {
 		timeout = 60
